@@ -88,11 +88,11 @@ func (s *vRecSub) Done() <-chan struct{}  { return nil }
 func (s *vRecSub) Error() error           { return nil }
 
 type vCtlEnv struct {
-	c      *controller
-	w      *vFakeWatcher
-	l      *vFakeLister
-	rs     *vRecSub
-	mirror []vEnt // replay of published events on the content at readiness
+	c        *controller
+	w        *vFakeWatcher
+	l        *vFakeLister
+	rs       *vRecSub
+	mirror   []vEnt // replay of published events on the content at readiness
 	mirrored bool
 }
 
